@@ -26,7 +26,7 @@ ASSUMPTIONS = ['C05_noninterference uses the standard-library axiom functional_e
                'the concrete curve arithmetic (Model/Secp256k1.v) is assumed, not proved, to be a group (no elliptic-curve library installed)']
 RULE = ('spending transactions 1..4 in / 0..4 out; templates P2PK, P2PKH, bare m-of-n, P2SH-wrapped m-of-n; hash types '
         '{ALL,NONE,SINGLE}x{,ANYONECANPAY} plus undefined bytes (0, 4, 0x41, 0x7f, 0xff); every signing position; followed by one '
-        'edit from the catalogue; one case in eight asks for short DER signatures (< 70 bytes: re-signed until r or s has leading zero bytes); engine 502: signer plans for the same templates (which listed or foreign key signs which slot: honest ordered subsets, one signer repeated in every slot, right keys in the wrong order, a foreign signature, too few / too many signatures), accepted iff the last m signatures are by distinct listed keys in listing order (surplus leading signatures are never examined); followed by one edit from the catalogue (each field of each input/output, insertion, removal, reordering, witness, foreign key) or none. '
+        'edit from the catalogue (applied both to a fresh object and in place to the object just verified); engine 503: composite scripts (CHECKSIGVERIFY then CHECKSIG, multisig, NOT) with real signatures and undecodable public keys in every position, judged by the MODEL with the real oracle; one case in eight asks for short DER signatures (< 70 bytes: re-signed until r or s has leading zero bytes); engine 502: signer plans for the same templates (which listed or foreign key signs which slot: honest ordered subsets, one signer repeated in every slot, right keys in the wrong order, a foreign signature, too few / too many signatures), accepted iff the last m signatures are by distinct listed keys in listing order (surplus leading signatures are never examined); followed by one edit from the catalogue (each field of each input/output, insertion, removal, reordering, witness, foreign key) or none. '
         'non-trivial = all; distinct by case text')
 IN_COQ_SAMPLE = 0     # elliptic-curve arithmetic under vm_compute is too slow (measured: 25 s per scalar multiplication)
 
@@ -39,6 +39,8 @@ def corpus():
 
 
 def classify(e, a, iv):
+    if e == 503:
+        return 'composite-kind%d' % (a[4] // 5)
     if e == 502:
         return 't%d-plan-%s' % (a[0], 'honest' if a[8][1] == sorted(set(a[8][1])) and len(a[8][1]) == a[2] and all(k < a[8][0] for k in a[8][1]) else 'bad')
     return 't%d-edit%s%s-%s' % (a[0], a[9] % 100 if len(a) > 9 else '?', '-short' if len(a) > 9 and a[9] >= 100 else '', 'wk' if a[8] else 'ok')
@@ -193,4 +195,13 @@ def generate(rng, tier, boost):
             kind = 'none'; e = apply_edit(rng, t, idx, 'none')
         t2, idx2 = e
         cases.append((502, [template, secrets, m, t, idx, hts, t2, idx2, [nk, plan], EDITS.index(kind) + (100 if c % 8 == 0 else 0)]))
+    # engine 503: composite scripts with real signatures and undecodable public keys (a check against
+    # a key the library cannot load answers false, whatever was checked before it in the same process)
+    for c in range(70 if big else 35):
+        t = rand_spend(rng)
+        idx = rng.randrange(len(t[1]))
+        ht = rng.choice([1, 1, 2, 3, 0x81, 0x83])
+        if (ht & 0x1f) == 3 and idx >= len(t[2]):
+            ht = 1
+        cases.append((503, [secrets_distinct(rng, 2), t, idx, ht, c % 35]))
     return cases
